@@ -293,6 +293,38 @@ func (E *Engine) encodeOnce(name string, level int, cands map[CandKey]bool) (res
 					fx.note("ASSUMED without proof (clause tagged assumed): %s: %s", name, c.Src)
 					continue
 				}
+				if hasTag(c, "perpath") && len(fr.rets) > 1 {
+					// one obligation per return statement, over that path's own state (no merge of the exit states): smaller
+					// queries for functions with many early returns; together they are the clause
+					saved := fr.curReach
+					for ri, r := range fr.rets {
+						pev := fr.env(r.st, fr.entry, nil)
+						pev.local = nil
+						var pres Value
+						switch len(r.vals) {
+						case 0:
+							pres = Value{Kind: KTuple}
+						case 1:
+							pres = r.vals[0]
+						default:
+							pres = Value{Kind: KTuple, Elems: r.vals}
+						}
+						bindResults(pev, fn, pres)
+						pt, err := pev.EvalBool(c.E)
+						if err != nil {
+							fr.specError(c, err)
+							break
+						}
+						fr.curReach = r.reach
+						n0 := len(enc.Obls)
+						fr.obligeSplit("post", fmt.Sprintf("%s.ret%d", clauseName(c), ri+1), pt, fn.Pos(), c.Facet, c.Tags)
+						for _, o := range enc.Obls[n0:] {
+							o.Pos = token.Position{Filename: c.File, Line: c.Line}
+						}
+					}
+					fr.curReach = saved
+					continue
+				}
 				t, err := ev.EvalBool(c.E)
 				if err != nil {
 					fr.specError(c, err)
